@@ -102,3 +102,8 @@ func sortedKeys[V any](m map[string]V) []string {
 func (rc *RunCtx) Shape(format string, args ...any) {
 	rc.FPTokens = append(rc.FPTokens, fmt.Sprintf(format, args...))
 }
+
+// logLine is what an application does with a value it wants in its log: formats it. Formatting must be passive.
+func logLine(v any) string {
+	return fmt.Sprintf("%v|%+v|%s", v, v, v)
+}
